@@ -4,6 +4,7 @@ import (
 	"encoding/base64"
 	"fmt"
 	"net/http"
+	"net/url"
 	"strings"
 )
 
@@ -37,6 +38,19 @@ func (g *GoFakeS3) routeBase(w http.ResponseWriter, r *http.Request) {
 
 	if len(parts) == 2 {
 		object = parts[1]
+	}
+
+	// url.Values drops a pair it cannot read (one with a bad escape, and since
+	// go 1.17 one with a raw ';') without a word, which would turn the request
+	// into a different one: a part upload without its uploadId is a PUT of the
+	// object. S3 takes ';' literally; a bad escape is refused.
+	if strings.Contains(r.URL.RawQuery, ";") {
+		r.URL.RawQuery = strings.Replace(r.URL.RawQuery, ";", "%3B", -1)
+		query = r.URL.Query()
+	}
+	if _, perr := url.ParseQuery(r.URL.RawQuery); perr != nil {
+		g.httpError(w, r, ErrorMessage(ErrInvalidURI, "Couldn't parse the query string."))
+		return
 	}
 
 	if uploadID := UploadID(query.Get("uploadId")); uploadID != "" {
